@@ -29,9 +29,11 @@ impl Ctx<'_> {
             tier: self.tier,
             seed: self.base.seed,
             index: self.base.index,
+            batch_seed: 0,
             plan: Some(plan.clone()),
             choices: Some(choices.to_vec()),
             tracing: false,
+            plan_only: false,
         };
         let res = execute(self.harness, spec);
         if res.harness_error.is_some() {
@@ -56,6 +58,9 @@ fn scripts_len(plan: &Value) -> Vec<usize> {
 }
 
 pub fn minimise(harness: HarnessFn, prop: Prop, tier: Tier, found: &Found, budget: usize) -> Option<Found> {
+    if found.violation.rule == "liveness.poll-never-returns" {
+        return None; // every failing candidate costs a full hang timeout
+    }
     let mut ctx = Ctx {
         harness,
         prop,
